@@ -452,3 +452,213 @@ Example C01_ex_roundtrip :
   | Err _ => None
   end = Some ([x68; x69; x21], false, false).
 Proof. vm_compute. reflexivity. Qed.
+
+From SP Require GoEndToEndEnc.
+(* ======================================= PART 1: props/C01.v ======================================= *)
+(* ---- END TO END at the level of the translated Go code: proofs/GoEndToEndEnc.v ---- *)
+(* The Go sender session [go_encrypt_session] RUNS the terms generated from /repo's encrypt.go: run_func2 of
+   f_saltpack_encryptStream_init, then of f_saltpack_encryptStream_Write on each piece, then of
+   f_saltpack_encryptStream_Close, the receiver object `es` being read back from the final environment of each call and
+   handed to the next; each call under the externs of its own source tie (C01_source_encryptStream_init / _Write /
+   _Close) with the in-memory writer mem_enc.  Some es' = every call returned a nil error (every Write len(p)).
+   [go_encrypt_out] = the bytes the writer holds at the end.  The receiver is the translated Open / NewDecryptStream
+   exactly as in C01_source_Open / C01_source_NewDecryptStream.  The model appears only in the hypothesis "the model's
+   sender returns Ok" and as the bridge in the proofs.  Three random sources (the evaluator has no global state):
+   ra rng.shuffleReceivers, rb the ephemeral key creator, rc rng.createSymmetricKey; the model's single stream r is
+   ra = r, (rb, rc) = model_sources rcpts r.  NOT covered: newEncryptStream / seal / Seal are not translated (the session
+   starts at init on a fresh object, fresh_es); inside Open, NewDecryptStream and io.ReadAll have the model's meaning
+   (as in C01_source_Open). *)
+Section C01_source_end_to_end.
+Import GoAstOpen GoAstProofs4a GoAstProofs4b GoAstProofs5c GoAstProofs7c GoEndToEndEnc.
+Local Open Scope string_scope.
+
+(* The Go sender session on a fresh object whose writer holds out0 leaves out0 ++ wire in the writer, wire being the
+   model's seal_core on the values the three sources deliver.  Hypotheses: crypto_ok; fresh object; version 1 or 2;
+   receivers accepted by checkEncryptReceivers; at most 2^31-1 receivers (beyond, csprngShuffle panics); every Write at
+   most 295 MiB (the evaluator's loop bound); the three draws succeed; the model's seal_core returns Ok. *)
+Theorem C01_source_end_to_end_sender (c : crypto) (Hc : crypto_ok c) (st0 : es_state) (out0 : bytes) (v : version)
+        (sender : option bytes) (rcpts rs : list rcpt) (ra rb rc ra' rb' rc' : rng) (eph pkey : bytes)
+        (pieces : list bytes) (wire : bytes) :
+  fresh_es v out0 st0 ->
+  v = v1 \/ v = v2 ->
+  check_receivers rcpts = Ok tt ->
+  (Z.of_nat (List.length rcpts) <= 2147483647)%Z ->
+  Forall (fun p : bytes => (List.length p <= 295 * blk)%nat) pieces ->
+  shuffle rcpts ra = Some (rs, ra') ->
+  read_full 32 rb = Some (eph, rb') ->
+  read_full 32 rc = Some (pkey, rc') ->
+  seal_core c v sender eph pkey rs pieces = Ok wire ->
+  (exists st', go_encrypt_session c (g_es st0) v sender rcpts ra rb rc pieces = Some (g_es st') /\
+               es_enc st' = VBytes (out0 ++ wire)%list /\ es_buf st' = [] /\ es_err st' = None) /\
+  go_encrypt_out c (g_es st0) v sender rcpts ra rb rc pieces = Some (out0 ++ wire)%list.
+Proof. exact (go_encrypt_session_model c Hc st0 out0 v sender rcpts rs ra rb rc ra' rb' rc' eph pkey pieces wire). Qed.
+
+(* Whenever the model's open_stream ends cleanly on an input, the translated Open and NewDecryptStream return the model's
+   MessageKeyInfo (receiver key object: a key OF THE RING whose public half is the model's receiver key), the
+   concatenated chunks / the chunk reader over the state the model's loop starts from, and nil.  No "not stuck"
+   hypothesis; every input, keyring, validator. *)
+Theorem C01_source_end_to_end_receiver (c : crypto) (pm : bytes -> gval) (vd : validator) (kr : keyring)
+        (VV RING rd : gval) (wire : bytes) (m : mki) (chunks : list bytes) :
+  open_stream c vd kr wire = Ok (m, mkOut chunks EOF) ->
+  rdr_bytes rd = Some wire ->
+  exists (k : bytes * bytes) (st : dec_state) (rest : bytes),
+    In k (kr_keys kr) /\ snd k = mki_receiver m /\
+    fst (run_func2 (ext_open c pm vd kr) f_saltpack_Open [VV; VBytes wire; RING])
+    = ORet [g_mki m k; VBytes (List.concat chunks); VNil] /\
+    fst (run_func2 (ext_nds c pm vd kr) f_saltpack_NewDecryptStream [VV; rd; RING])
+    = ORet [g_mki m k; g_cr_new (g_ds_done VV RING (g_mps_raw rest 1) VNil m st k); VNil] /\
+    decrypt_loop c (S (List.length rest)) st 0 rest [] = mkOut chunks EOF.
+Proof. exact (go_Open_of_model c pm vd kr VV RING rd wire m chunks). Qed.
+
+(* END TO END, three independent sources: for every plaintext in any split into Writes (each at most 295 MiB), version
+   1 or 2, named or anonymous sender, receivers accepted by checkEncryptReceivers, draws that succeed and on which the
+   model's seal_core returns Ok wire, header shorter than 4 GiB, EVERY recipient (dh_pub c sk, hide) of the list:
+   the Go sender session leaves out0 ++ wire in the writer, and the translated Open on wire under the ring holding that
+   recipient's key returns the MessageKeyInfo m (receiver key object (sk, dh_pub c sk)), exactly the plaintext and
+   nil; the translated NewDecryptStream returns m, nil and the reader from whose state the loop releases the
+   plaintext; m names the true sender (the ephemeral key and the anonymous flag for an anonymous sender), this
+   recipient's key and its hidden flag -- or another recipient's payload-key box of this message opens under this
+   recipient's shared key (ForeignBoxOpens).  The bound of 2^31-1 receivers follows from the header bound. *)
+Theorem C01_source_end_to_end_roundtrip (c : crypto) (Hc : crypto_ok c) (pm : bytes -> gval) (vd : validator)
+        (VV RING rd : gval) (st0 : es_state) (out0 : bytes) (v : version) (sender : option bytes)
+        (rcpts rs : list rcpt) (ra rb rc ra' rb' rc' : rng) (eph pkey : bytes) (pieces : list bytes) (wire : bytes)
+        (sk : bytes) (hide : bool) :
+  fresh_es v out0 st0 ->
+  v = v1 \/ v = v2 -> good_validator_e vd v ->
+  check_receivers rcpts = Ok tt ->
+  Forall (fun p : bytes => (List.length p <= 295 * blk)%nat) pieces ->
+  shuffle rcpts ra = Some (rs, ra') ->
+  read_full 32 rb = Some (eph, rb') ->
+  read_full 32 rc = Some (pkey, rc') ->
+  seal_core c v sender eph pkey rs pieces = Ok wire ->
+  (len (enc_header_bytes c v sender eph pkey rs) < 4294967296)%N ->
+  In (dh_pub c sk, hide) rcpts ->
+  (forall s, sender = Some s -> dh_pub c s <> dh_pub c eph) ->
+  rdr_bytes rd = Some wire ->
+  let kr := mkRing [(sk, dh_pub c sk)] None in
+  let k := (sk, dh_pub c sk) in
+  go_encrypt_out c (g_es st0) v sender rcpts ra rb rc pieces = Some (out0 ++ wire)%list /\
+  ((exists (m : mki) (st : dec_state) (rest : bytes) (chunks : list bytes),
+      fst (run_func2 (ext_open c pm vd kr) f_saltpack_Open [VV; VBytes wire; RING])
+      = ORet [g_mki m k; VBytes (List.concat pieces); VNil] /\
+      open_class (fst (run_func2 (ext_open c pm vd kr) f_saltpack_Open [VV; VBytes wire; RING]))
+      = Ok (m, List.concat pieces) /\
+      fst (run_func2 (ext_nds c pm vd kr) f_saltpack_NewDecryptStream [VV; rd; RING])
+      = ORet [g_mki m k; g_cr_new (g_ds_done VV RING (g_mps_raw rest 1) VNil m st k); VNil] /\
+      decrypt_loop c (S (List.length rest)) st 0 rest [] = mkOut chunks EOF /\
+      List.concat chunks = List.concat pieces /\
+      mki_sender m = dh_pub c (match sender with Some s => s | None => eph end) /\
+      mki_sender_anon m = (match sender with Some _ => false | None => true end) /\
+      mki_receiver m = dh_pub c sk /\
+      mki_receiver_anon m = hide)
+   \/ ForeignBoxOpens c v eph pkey (dh_pub c sk) rs).
+Proof.
+  exact (go_encrypt_end_to_end c Hc pm vd VV RING rd st0 out0 v sender rcpts rs ra rb rc ra' rb' rc' eph pkey pieces wire sk hide).
+Qed.
+
+(* the same against the model's sender on ONE randomness stream r: "the model's sender returns Ok" is
+   seal_stream c v sender rcpts pieces r = Ok (wire, r'); the Go sources are r and model_sources rcpts r *)
+Theorem C01_source_end_to_end_roundtrip_stream (c : crypto) (Hc : crypto_ok c) (pm : bytes -> gval) (vd : validator)
+        (VV RING rd : gval) (st0 : es_state) (out0 : bytes) (v : version) (sender : option bytes)
+        (rcpts : list rcpt) (r r' : rng) (pieces : list bytes) (wire : bytes) (sk : bytes) (hide : bool) :
+  fresh_es v out0 st0 ->
+  good_validator_e vd v ->
+  Forall (fun p : bytes => (List.length p <= 295 * blk)%nat) pieces ->
+  seal_stream c v sender rcpts pieces r = Ok (wire, r') ->
+  (len (enc_header_bytes c v sender (model_eph rcpts r) (model_pkey rcpts r) (model_rs rcpts r)) < 4294967296)%N ->
+  In (dh_pub c sk, hide) rcpts ->
+  (forall s, sender = Some s -> dh_pub c s <> dh_pub c (model_eph rcpts r)) ->
+  rdr_bytes rd = Some wire ->
+  let kr := mkRing [(sk, dh_pub c sk)] None in
+  let k := (sk, dh_pub c sk) in
+  go_encrypt_out c (g_es st0) v sender rcpts r (fst (model_sources rcpts r)) (snd (model_sources rcpts r)) pieces
+  = Some (out0 ++ wire)%list /\
+  ((exists (m : mki) (st : dec_state) (rest : bytes) (chunks : list bytes),
+      fst (run_func2 (ext_open c pm vd kr) f_saltpack_Open [VV; VBytes wire; RING])
+      = ORet [g_mki m k; VBytes (List.concat pieces); VNil] /\
+      open_class (fst (run_func2 (ext_open c pm vd kr) f_saltpack_Open [VV; VBytes wire; RING]))
+      = Ok (m, List.concat pieces) /\
+      fst (run_func2 (ext_nds c pm vd kr) f_saltpack_NewDecryptStream [VV; rd; RING])
+      = ORet [g_mki m k; g_cr_new (g_ds_done VV RING (g_mps_raw rest 1) VNil m st k); VNil] /\
+      decrypt_loop c (S (List.length rest)) st 0 rest [] = mkOut chunks EOF /\
+      List.concat chunks = List.concat pieces /\
+      mki_sender m = dh_pub c (match sender with Some s => s | None => model_eph rcpts r end) /\
+      mki_sender_anon m = (match sender with Some _ => false | None => true end) /\
+      mki_receiver m = dh_pub c sk /\
+      mki_receiver_anon m = hide)
+   \/ ForeignBoxOpens c v (model_eph rcpts r) (model_pkey rcpts r) (dh_pub c sk) (model_rs rcpts r)).
+Proof.
+  exact (go_encrypt_end_to_end_stream c Hc pm vd VV RING rd st0 out0 v sender rcpts r r' pieces wire sk hide).
+Qed.
+
+(* ... with the header bound replaced by: recipient keys of at most 32 bytes, at most 40 000 000 recipients *)
+Theorem C01_source_end_to_end_roundtrip_stream_bounded (c : crypto) (Hc : crypto_ok c) (pm : bytes -> gval) (vd : validator)
+        (VV RING rd : gval) (st0 : es_state) (out0 : bytes) (v : version) (sender : option bytes)
+        (rcpts : list rcpt) (r r' : rng) (pieces : list bytes) (wire : bytes) (sk : bytes) (hide : bool) :
+  fresh_es v out0 st0 ->
+  good_validator_e vd v ->
+  Forall (fun p : bytes => (List.length p <= 295 * blk)%nat) pieces ->
+  seal_stream c v sender rcpts pieces r = Ok (wire, r') ->
+  Forall (fun rc : rcpt => (List.length (fst rc) <= 32)%nat) rcpts -> (N.of_nat (List.length rcpts) <= 40000000)%N ->
+  In (dh_pub c sk, hide) rcpts ->
+  (forall s, sender = Some s -> dh_pub c s <> dh_pub c (model_eph rcpts r)) ->
+  rdr_bytes rd = Some wire ->
+  let kr := mkRing [(sk, dh_pub c sk)] None in
+  let k := (sk, dh_pub c sk) in
+  go_encrypt_out c (g_es st0) v sender rcpts r (fst (model_sources rcpts r)) (snd (model_sources rcpts r)) pieces
+  = Some (out0 ++ wire)%list /\
+  ((exists (m : mki) (st : dec_state) (rest : bytes) (chunks : list bytes),
+      fst (run_func2 (ext_open c pm vd kr) f_saltpack_Open [VV; VBytes wire; RING])
+      = ORet [g_mki m k; VBytes (List.concat pieces); VNil] /\
+      open_class (fst (run_func2 (ext_open c pm vd kr) f_saltpack_Open [VV; VBytes wire; RING]))
+      = Ok (m, List.concat pieces) /\
+      fst (run_func2 (ext_nds c pm vd kr) f_saltpack_NewDecryptStream [VV; rd; RING])
+      = ORet [g_mki m k; g_cr_new (g_ds_done VV RING (g_mps_raw rest 1) VNil m st k); VNil] /\
+      decrypt_loop c (S (List.length rest)) st 0 rest [] = mkOut chunks EOF /\
+      List.concat chunks = List.concat pieces /\
+      mki_sender m = dh_pub c (match sender with Some s => s | None => model_eph rcpts r end) /\
+      mki_sender_anon m = (match sender with Some _ => false | None => true end) /\
+      mki_receiver m = dh_pub c sk /\
+      mki_receiver_anon m = hide)
+   \/ ForeignBoxOpens c v (model_eph rcpts r) (model_pkey rcpts r) (dh_pub c sk) (model_rs rcpts r)).
+Proof.
+  exact (go_encrypt_end_to_end_stream_bounded c Hc pm vd VV RING rd st0 out0 v sender rcpts r r' pieces wire sk hide).
+Qed.
+
+(* END TO END, a ring holding none of the recipient keys: the translated Open and NewDecryptStream return
+   (&ds.mki, nil, ErrNoDecryptionKey): no plaintext *)
+Theorem C01_source_end_to_end_no_key (c : crypto) (Hc : crypto_ok c) (pm : bytes -> gval) (vd : validator)
+        (VV RING rd : gval) (st0 : es_state) (out0 : bytes) (v : version) (sender : option bytes)
+        (rcpts rs : list rcpt) (ra rb rc ra' rb' rc' : rng) (eph pkey : bytes) (pieces : list bytes) (wire : bytes)
+        (sk : bytes) :
+  fresh_es v out0 st0 ->
+  v = v1 \/ v = v2 -> good_validator_e vd v ->
+  check_receivers rcpts = Ok tt ->
+  Forall (fun p : bytes => (List.length p <= 295 * blk)%nat) pieces ->
+  shuffle rcpts ra = Some (rs, ra') ->
+  read_full 32 rb = Some (eph, rb') ->
+  read_full 32 rc = Some (pkey, rc') ->
+  seal_core c v sender eph pkey rs pieces = Ok wire ->
+  (len (enc_header_bytes c v sender eph pkey rs) < 4294967296)%N ->
+  ~ In (dh_pub c sk) (map fst rcpts) ->
+  rdr_bytes rd = Some wire ->
+  let kr := mkRing [(sk, dh_pub c sk)] None in
+  go_encrypt_out c (g_es st0) v sender rcpts ra rb rc pieces = Some (out0 ++ wire)%list /\
+  ((fst (run_func2 (ext_open c pm vd kr) f_saltpack_Open [VV; VBytes wire; RING])
+    = ORet [pm wire; VNil; VErr "ErrNoDecryptionKey" []] /\
+    open_class (fst (run_func2 (ext_open c pm vd kr) f_saltpack_Open [VV; VBytes wire; RING])) = Err ErrNoDecryptionKey /\
+    fst (run_func2 (ext_nds c pm vd kr) f_saltpack_NewDecryptStream [VV; rd; RING])
+    = ORet [pm wire; VNil; VErr "ErrNoDecryptionKey" []])
+   \/ ForeignBoxOpens c v eph pkey (dh_pub c sk) rs).
+Proof.
+  exact (go_encrypt_end_to_end_stranger c Hc pm vd VV RING rd st0 out0 v sender rcpts rs ra rb rc ra' rb' rc' eph pkey pieces wire sk).
+Qed.
+End C01_source_end_to_end.
+
+Print Assumptions C01_source_end_to_end_sender.
+Print Assumptions C01_source_end_to_end_receiver.
+Print Assumptions C01_source_end_to_end_roundtrip.
+Print Assumptions C01_source_end_to_end_roundtrip_stream.
+Print Assumptions C01_source_end_to_end_roundtrip_stream_bounded.
+Print Assumptions C01_source_end_to_end_no_key.
+
